@@ -15,7 +15,9 @@ Ignored == {"truncated_frame", "getdata_unknown_hash", "peers_with_unusable_addr
             \* a block that fails a rule in state sent as the answer to a request (bulk download: taken unvalidated), then a relayed block
             \* that is validated and rejected: the roll-back to the last validated state removes both (one input of two frames)
             "invalid_block_in_bulk_then_a_rejected_block"}
-Either == {"random_bytes", "bit_flipped_frame", "spliced_frames", "truncated_then_valid"}
+Either == {"random_bytes", "bit_flipped_frame", "spliced_frames", "truncated_then_valid",
+           \* a well-formed block frame whose height field (a variable-length quantity without an upper bound) holds a number of thousands of digits
+           "astronomic_number_in_a_field"}
 Valid == {"valid_block", "valid_transaction"}
 Classes == Closes \cup Ignored \cup Either \cup Valid
 
